@@ -170,7 +170,12 @@ class ConstantLengthTupleProvider(LoaderProvider, DumperProvider):
             try:
                 data_len = len(data)
             except TypeError:
-                raise TypeLoadError(tuple, data)
+                # iterables without length are materialized, as the loaders for other debug trails do
+                try:
+                    data = tuple(data)
+                except TypeError:
+                    raise TypeLoadError(tuple, data)
+                data_len = len(data)
 
             if data_len != loaders_len:
                 if data_len > loaders_len:
@@ -197,7 +202,12 @@ class ConstantLengthTupleProvider(LoaderProvider, DumperProvider):
             try:
                 data_len = len(data)
             except TypeError:
-                raise TypeLoadError(tuple, data)
+                # iterables without length are materialized, as the loaders for other debug trails do
+                try:
+                    data = tuple(data)
+                except TypeError:
+                    raise TypeLoadError(tuple, data)
+                data_len = len(data)
 
             if data_len != loaders_len:
                 if data_len > loaders_len:
